@@ -5,7 +5,7 @@ use crate::pipeline::Lang;
 use crate::report::{self, Report, Violation};
 use serde_json::json;
 
-const SRC: &str = "#[typeshare]\npub struct Item { pub user_id: u32, pub when: DateTime, pub items: Option<Vec<u32>>, pub nothing: () }\n\n#[typeshare]\npub struct Wrapper<T> { pub inner: T }\n\n#[typeshare]\npub struct OAuthToken { pub oauth_token: String, pub ipv6_addr: u32, pub api_url: String }\n\n#[typeshare(swift = \"Equatable\")]\npub struct Decorated { pub a: u32 }\n\n#[typeshare(swiftGenericConstraints = \"T: Equatable\")]\npub struct Pair<T, U> { pub t: T, pub u: U }\n\n#[typeshare(swift = \"Equatable\", swiftGenericConstraints = \"A: Hashable & Comparable\")]\n#[serde(tag = \"type\", content = \"content\")]\npub enum Both<A, B> { One(A), Two(B) }\n";
+const SRC: &str = "#[typeshare]\npub struct Item { pub user_id: u32, pub when: DateTime, pub items: Option<Vec<u32>>, pub nothing: () }\n\n#[typeshare]\npub struct Wrapper<T> { pub inner: T }\n\n#[typeshare]\npub struct OAuthToken { pub oauth_token: String, pub ipv6_addr: u32, pub api_url: String }\n\n#[typeshare(swift = \"Equatable\")]\npub struct Decorated { pub a: u32 }\n\n#[typeshare(swiftGenericConstraints = \"T: Equatable\")]\npub struct Pair<T, U> { pub t: T, pub u: U }\n\n#[typeshare(swift = \"Equatable\", swiftGenericConstraints = \"A: Hashable & Comparable\")]\n#[serde(tag = \"type\", content = \"content\")]\npub enum Both<A, B> { One(A), Two(B) }\n\n#[typeshare]\npub struct Labelled { pub labels: HashMap<String, String>, pub counts: Vec<HashMap<String, u32>> }\n";
 
 /// Swift: the conformance list of `decl_name` and the constraint sets of its generic parameters, as sets
 fn swift_decl_sets(text: &str, decl_name: &str) -> Option<(Vec<String>, std::collections::BTreeMap<String, Vec<String>>)> {
@@ -254,6 +254,10 @@ pub fn run(args: &[String]) -> i32 {
             ("type_mappings-kotlin", Lang::Kotlin, "[kotlin]\npackage = \"p.q\"\n[kotlin.type_mappings]\nDateTime = \"java.time.Instant\"\n".into(), Box::new(|t: &str| t.contains("val when: java.time.Instant"))),
             ("type_mappings-swift", Lang::Swift, "[swift.type_mappings]\nDateTime = \"Date\"\n".into(), Box::new(|t: &str| t.contains("let when: Date"))),
             ("type_mappings-go-container", Lang::Go, "[go]\npackage = \"p\"\n[go.type_mappings]\nDateTime = \"string\"\n\"Vec<u32>\" = \"Uint32s\"\n".into(), Box::new(|t: &str| t.contains("When string") && t.contains("Uint32s"))),
+            // keys naming an instance of a map, in typeshare's own spelling of it (TypeScript, Go and Python look those up)
+            ("type_mappings-ts-map-instance", Lang::TypeScript, "[typescript.type_mappings]\nDateTime = \"MappedDate\"\n\"HashMap<String,String>\" = \"StringMap\"\n\"HashMap<String,u32>\" = \"Counts\"\n".into(), Box::new(|t: &str| t.contains("labels: StringMap") && t.contains("counts: Counts[]"))),
+            ("type_mappings-go-map-instance", Lang::Go, "[go]\npackage = \"p\"\n[go.type_mappings]\nDateTime = \"string\"\n\"HashMap<String,String>\" = \"StringMap\"\n\"HashMap<String,u32>\" = \"Counts\"\n".into(), Box::new(|t: &str| t.contains("Labels StringMap") && t.contains("Counts []Counts"))),
+            ("type_mappings-python-map-instance", Lang::Python, "[python.type_mappings]\nDateTime = \"datetime\"\n\"HashMap<String,String>\" = \"StringMap\"\n\"HashMap<String,u32>\" = \"Counts\"\n".into(), Box::new(|t: &str| t.contains("labels: StringMap") && t.contains("counts: List[Counts]"))),
             ("type_mappings-python", Lang::Python, "[python.type_mappings]\nDateTime = \"datetime\"\n".into(), Box::new(|t: &str| t.contains("datetime"))),
             ("default_decorators", Lang::Swift, "[swift]\ndefault_decorators = [\"Sendable\", \"Hashable\"]\n[swift.type_mappings]\nDateTime = \"Date\"\n".into(), Box::new(|t: &str| t.contains("struct Item: Codable, Sendable, Hashable"))),
             ("default_generic_constraints", Lang::Swift, "[swift]\ndefault_generic_constraints = [\"Sendable\"]\n[swift.type_mappings]\nDateTime = \"Date\"\n".into(), Box::new(|t: &str| t.contains("Wrapper<T: Codable & Sendable>"))),
